@@ -28,10 +28,12 @@ def shards(tier):
     if tier == 'quick':
         return [dict(kind='kc', n=1920, parts=12, timeout=900),
                 dict(kind='foreign', n=800, parts=4, timeout=900),
-                dict(kind='ftraj', n=240, parts=4, timeout=900)]
+                dict(kind='ftraj', n=240, parts=4, timeout=900),
+                dict(kind='midpoint', n=400, parts=4, timeout=900)]
     return [dict(kind='kc', n=48000, parts=12, timeout=3400),
             dict(kind='foreign', n=16000, parts=4, timeout=3400),
-            dict(kind='ftraj', n=6000, parts=4, timeout=3400)]
+            dict(kind='ftraj', n=6000, parts=4, timeout=3400),
+            dict(kind='midpoint', n=12000, parts=4, timeout=3400)]
 
 
 def setup(ctx):
@@ -75,6 +77,8 @@ def run_case(ctx, kind, rng, idx):
         return run_foreign(ctx, rng, idx)
     if kind == 'ftraj':
         return run_ftraj(ctx, rng, idx)
+    if kind == 'midpoint':
+        return run_midpoint(ctx, rng, idx)
     small = rng.random() < 0.35
     X, info = cc.gen_data(rng, nmax=13 if small else 60)
     n = len(X)
@@ -548,3 +552,81 @@ def run_ftraj(ctx, rng, idx):
     if n_clusters - n_init >= 2:
         ctx.nontriv('ftraj', frames.xyz.tobytes(), init.xyz.tobytes(),
                     n_clusters)
+
+
+def run_midpoint(ctx, rng, idx):
+    """Data built around the pruning bound of the triangle-inequality
+    shortcut: a frame sits within a few units in the last place of the
+    midpoint between its center and the next center (collinear points), on
+    either side of it.  Serial and one-rank MPI route, shortcut vs plain."""
+    d = int(rng.integers(1, 4))
+    D = float(rng.uniform(1, 100)) if rng.random() < 0.7 else \
+        float(2.0 ** int(rng.integers(-3, 8)))
+    u = rng.normal(size=d)
+    u /= np.sqrt((u ** 2).sum())
+    if d == 1 or rng.random() < 0.5:
+        u = np.zeros(d)
+        u[0] = 1.0                       # axis-aligned: distances are exact
+    k_ulp = int(rng.integers(-6, 13))
+    m = D / 2
+    for _ in range(abs(k_ulp)):
+        m = np.nextafter(m, np.inf if k_ulp > 0 else -np.inf)
+    ts = [0.0, D, float(m)]
+    # a few more frames well inside the first cluster and beyond the far one
+    ts += [float(x) for x in rng.uniform(0.02 * D, 0.35 * D,
+                                         size=int(rng.integers(0, 4)))]
+    ts += [float(D + x) for x in rng.uniform(0.01 * D, 0.2 * D,
+                                             size=int(rng.integers(0, 3)))]
+    order = [0] + [int(i) + 1 for i in rng.permutation(len(ts) - 1)]
+    X = np.outer(np.array(ts)[order], u)
+    n = len(X)
+    n_clusters = int(rng.integers(2, min(n, 5) + 1))
+    mname = ['euclidean', 'manhattan'][int(rng.integers(0, 2))]
+    ref = cc.ref_metric(mname)
+    ctx.describe({'D': D, 'ulps_from_midpoint': k_ulp, 'dim': d,
+                  'direction': u.tolist(), 'metric': mname,
+                  'n_clusters': n_clusters, 'X': X})
+    ctx.seen('criteria', 'midpoint/%+d' % max(-3, min(3, k_ulp)))
+    for mode in (False, True):
+        out = {}
+        for tri in (False, True):
+            ctx.hist = []
+            try:
+                r = kcenters.kcenters(X.copy(), mname, n_clusters=n_clusters,
+                                      use_triangle_inequality=tri,
+                                      mpi_mode=mode)
+            except Exception as e:  # noqa
+                ctx.violation('kcenters.midpoint.raised[mpi=%s]' % mode,
+                              '%s: %s' % (type(e).__name__, str(e)[:200]))
+                return
+            ci = [int(c[1]) if isinstance(c, tuple) else int(c)
+                  for c in r.center_indices]
+            out[tri] = (ci, np.asarray(r.assignments),
+                        np.asarray(r.distances, dtype=float))
+        ctx.count('shortcut_pairs')
+        ctx.count('stop_rules_checked')
+        tag = 'mpi' if mode else 'serial'
+        for tri in (False, True):
+            ci, lab, dist = out[tri]
+            DK = np.stack([ref(X, X[c]) for c in ci], axis=1)
+            own = DK[np.arange(n), lab]
+            # exact arithmetic in the axis-aligned case, 1e-12 otherwise
+            tol = 1e-12 * D
+            if np.any(np.abs(own - dist) > tol) or np.any(
+                    DK.min(axis=1) < dist - tol):
+                i = int(np.argmax(dist - DK.min(axis=1)))
+                ctx.violation(
+                    'kcenters.midpoint.not-nearest[%s]' % tag,
+                    '[%s, shortcut=%s] frame %d reported at %.17g from '
+                    'center %d, nearest center is at %.17g (frame %d ulps '
+                    'from the midpoint)' % (tag, tri, i, dist[i], lab[i],
+                                            DK[i].min(), k_ulp))
+        a, b = out[False], out[True]
+        if a[0] != b[0] or not np.array_equal(a[2], b[2]):
+            ctx.violation('kcenters.midpoint.shortcut-differs[%s]' % tag,
+                          'centers %s vs %s, max |d - d_plain| = %.3g (frame '
+                          '%d ulps from the midpoint)' % (
+                              a[0], b[0], np.abs(a[2] - b[2]).max()
+                              if a[2].shape == b[2].shape else -1, k_ulp))
+    if abs(k_ulp) <= 4:
+        ctx.nontriv('midpoint', X.tobytes(), n_clusters, mname)
